@@ -9,5 +9,5 @@ git -C $SB/repo fetch -q /repo HEAD && git -C $SB/repo checkout -q --detach FETC
 if [ "$P" != "-" ]; then git -C $SB/repo apply "$P" || exit 2; fi
 mkdir -p $SB/harness
 rsync -a --exclude target /verif/harness/ $SB/harness/
-sed -i 's#path = "/repo"#path = "/tmp/sb/repo"#' $SB/harness/Cargo.toml
+sed -i 's#path = "/repo#path = "/tmp/sb/repo#' $SB/harness/Cargo.toml
 VERIF_HARNESS=$SB/harness VERIF_WORK=$SB/work VERIF_EVIDENCE=$SB/evidence /verif/bin/check $ID --tier $TIER
